@@ -1,6 +1,6 @@
 \* same deviation: a file differs ONLY through (last machine instruction before it, its first machine instruction)
 CONSTANTS
- Haz = {"cp"}
+ Haz = {"cp", "sp"}
  Fams = {"a", "b"}
  Leak = {"nxt"}
  MaxFiles = 2
